@@ -1,6 +1,7 @@
 package engine
 
 import (
+	"context"
 	"fmt"
 	"os"
 	"time"
@@ -9,6 +10,7 @@ import (
 	"go.uber.org/zap"
 
 	"github.com/mimiro-io/datahub/internal/conf"
+	"github.com/mimiro-io/datahub/internal/jobs"
 	"github.com/mimiro-io/datahub/internal/server"
 )
 
@@ -28,6 +30,17 @@ type World struct {
 	EntP, PredP, PropP string // curie prefixes of the three harness namespaces
 
 	Gen int // incremented by every (re)open
+
+	sched *jobs.Scheduler
+}
+
+// Sched returns the hub's job scheduler (created on first use after every (re)open).
+func (w *World) Sched() *jobs.Scheduler {
+	if w.sched == nil {
+		runner := jobs.NewRunner(w.Env, w.Store, nil, server.NoOpBus(), &statsd.NoOpClient{})
+		w.sched = jobs.NewScheduler(w.Env, w.Store, w.Dsm, runner)
+	}
+	return w.sched
 }
 
 func NewEnv(dir string) *conf.Config {
@@ -35,6 +48,7 @@ func NewEnv(dir string) *conf.Config {
 		Logger:               zap.NewNop().Sugar(),
 		StoreLocation:        dir,
 		FullsyncLeaseTimeout: time.Hour,
+		RunnerConfig:         &conf.RunnerConfig{PoolIncremental: 4, PoolFull: 4, Concurrent: 1},
 	}
 }
 
@@ -49,6 +63,10 @@ func OpenWorld(dir string) (*World, error) {
 
 func (w *World) open() error {
 	w.Gen++
+	if w.sched != nil {
+		_ = w.sched.Stop(context.Background())
+		w.sched = nil
+	}
 	w.Store = server.NewStore(w.Env, &statsd.NoOpClient{})
 	w.Dsm = server.NewDsManager(w.Env, w.Store, server.NoOpBus())
 	var err error
@@ -73,6 +91,10 @@ func (w *World) Restart() error {
 }
 
 func (w *World) Close() {
+	if w.sched != nil {
+		_ = w.sched.Stop(context.Background())
+		w.sched = nil
+	}
 	_ = w.Store.Close()
 }
 
